@@ -82,6 +82,12 @@ class Report:
         self.configs.append(res.get("name", ""))
         for tag in expect_reach or ():
             if res.get("reach", {}).get(tag, 0) == 0:
+                if res.get("unknown", 0) + res.get("truncated", 0) > 0:
+                    # every path of the harness ended inconclusive (solver unknown, cap, or a stub that does not model
+                    # what the code uses): the harness decided nothing -- that is inconclusive, not vacuous
+                    if len(self.notes) < 30:
+                        self.notes.append(f"{res.get('name','')}: no path reached '{tag}', all ended inconclusive")
+                    continue
                 self.reach_missing.append(f"{res.get('name','')}:{tag}")
 
     def add_function(self, fn):
